@@ -183,3 +183,13 @@ def pull(gen, horizon):
         items.append(it)
         if len(items) > horizon:
             return items, "horizon"
+
+
+class WriteOnlyStream:
+    """A stand-in for sys.stdout that can only be written to (a GUI redirector, a logger adapter, a tee): print() needs nothing else."""
+    def __init__(self):
+        self.chars = 0
+
+    def write(self, text):
+        self.chars += len(text)
+        return len(text)
